@@ -6,6 +6,8 @@ package main
 import (
 	"fmt"
 	"go/types"
+	"path/filepath"
+	"regexp"
 	"runtime/debug"
 	"sort"
 	"strings"
@@ -141,8 +143,171 @@ func (x *VC) allocatedFact(v *Val, st *State) {
 // isPtrTag: dynamic type is one of the pointer types known so far (boxed scalars are never "allocated").
 func (x *VC) isPtrTag(t string) string { return "(ptrtag (dtype " + t + "))" }
 
-// assumeAxioms adds the global axioms (declared spec functions, lemma statements used).
+// assumeAxioms adds the statements of the axioms / lemmas the contract `uses`.
 func (e *Engine) assumeAxioms(x *VC, env *SEnv) {
+	if x.c == nil {
+		return
+	}
+	for _, u := range x.c.Uses {
+		lm := e.db.Lemmas[u]
+		if lm == nil {
+			x.refuse("uses %s: unknown lemma or axiom", u)
+		}
+		le := &SEnv{x: x, vars: map[string]*Val{}, cur: env.cur, old: env.cur, pkg: e.pkgByPath(lm.Pkg)}
+		if le.pkg == nil {
+			le.pkg = env.pkg
+		}
+		// quantified statement: emitted directly (bound variables are its own)
+		x.noName++
+		x.specMode++
+		t := x.ev(lm.E, le).T
+		x.noName--
+		x.specMode--
+		x.emit("(assert " + t + ")")
+		if lm.Axiom {
+			x.externs["axiom "+lm.Name] = true
+		} else {
+			x.lemmasUse[lm.Name] = true
+		}
+	}
+}
+
+// verifyLemma proves a pure lemma from the axioms / lemmas it lists.
+func (e *Engine) verifyLemma(lm *Lemma, anyFn *ssa.Function) *FuncResult {
+	x := newVC(e, anyFn, nil)
+	x.lemmaName = lm.Name
+	fres := &FuncResult{Key: "lemma " + lm.Name, VC: x, Mode: "math", IsLemma: true}
+	defer func() {
+		if r := recover(); r != nil {
+			if rf, ok := r.(refusal); ok {
+				fres.Refused = rf.msg
+			} else {
+				fres.Refused = fmt.Sprintf("engine panic: %v\n%s", r, debug.Stack())
+			}
+		}
+		fres.Obls = x.obls
+		for k := range x.externs {
+			if !strings.HasPrefix(k, "decl:") {
+				fres.Externs = append(fres.Externs, k)
+			}
+		}
+		sort.Strings(fres.Externs)
+	}()
+	st := &State{ep: &Epoch{id: 0, kind: "base"}, H: map[string]string{}, C: map[*ssa.Alloc]*Val{}}
+	env := &SEnv{x: x, vars: map[string]*Val{}, cur: st, old: st, pkg: e.pkgByPath(lm.Pkg)}
+	for _, u := range lm.Using {
+		um := e.db.Lemmas[u]
+		if um == nil {
+			x.refuse("lemma %s uses unknown %s", lm.Name, u)
+		}
+		ue := &SEnv{x: x, vars: map[string]*Val{}, cur: st, old: st, pkg: e.pkgByPath(um.Pkg)}
+		x.noName++
+		x.specMode++
+		t := x.ev(um.E, ue).T
+		x.noName--
+		x.specMode--
+		x.emit("(assert " + t + ")")
+		if um.Axiom {
+			x.externs["axiom "+um.Name] = true
+		}
+	}
+	// Skolemise the lemma's outer universal quantifier and instantiate the axioms it uses on the
+	// ground arguments of uninterpreted functions in the goal (solvers do not reliably combine
+	// quantifier instantiation with the theory of strings).
+	goalE := lm.E
+	if goalE.Op == "forall" {
+		env.bound = map[string]*Val{}
+		for _, qv := range goalE.Vars {
+			if qv.In != nil {
+				x.refuse("lemma %s: element quantification at top level", lm.Name)
+			}
+			var v *Val
+			switch qv.Type {
+			case "int":
+				v = &Val{K: KScalar, T: x.declare("sk_"+qv.Name, x.idxSort()), S: x.idxSort(), GT: tInt}
+			case "mathint":
+				v = &Val{K: KScalar, T: x.declare("sk_"+qv.Name, "Int"), S: "Int", GT: types.Typ[types.UntypedInt]}
+			default:
+				t := x.resolveType(qv.Type, env.pkg)
+				v = &Val{K: KScalar, T: x.declare("sk_"+qv.Name, x.sortOf(t)), S: x.sortOf(t), GT: t}
+				x.fact(x.typeRange(v.T, t))
+			}
+			env.bound[qv.Name] = v
+		}
+		goalE = goalE.Args[0]
+	}
+	x.noName++
+	x.specMode++
+	goal := x.ev(goalE, env).T
+	x.noName--
+	x.specMode--
+	// explicit applications
+	for _, ap := range lm.Apply {
+		um := e.db.Lemmas[ap.Args[0].Name]
+		if um == nil || um.E.Op != "forall" || len(um.E.Vars) != len(ap.Args)-1 {
+			x.refuse("lemma %s: bad application of %s", lm.Name, ap.Args[0].Name)
+		}
+		used := false
+		for _, u := range lm.Using {
+			used = used || u == um.Name
+		}
+		if !used {
+			x.refuse("lemma %s applies %s without listing it under using", lm.Name, um.Name)
+		}
+		ue := &SEnv{x: x, vars: map[string]*Val{}, cur: st, old: st, pkg: e.pkgByPath(um.Pkg), bound: map[string]*Val{}}
+		x.noName++
+		x.specMode++
+		for i, qv := range um.E.Vars {
+			ue.bound[qv.Name] = x.ev(ap.Args[i+1], env)
+		}
+		t := x.ev(um.E.Args[0], ue).T
+		x.noName--
+		x.specMode--
+		x.emit("(assert " + t + ")")
+	}
+	// ground instantiation of the used axioms
+	var cands []string
+	seenC := map[string]bool{}
+	for _, m := range regexp.MustCompile(`\(dec ([A-Za-z_!$0-9]+)\)`).FindAllStringSubmatch(goal, -1) {
+		if !seenC[m[1]] {
+			seenC[m[1]] = true
+			cands = append(cands, m[1])
+		}
+	}
+	for _, u := range lm.Using {
+		um := e.db.Lemmas[u]
+		if um == nil || um.E.Op != "forall" || len(um.E.Vars) > 2 || len(cands) == 0 || len(cands) > 12 {
+			continue
+		}
+		ue := &SEnv{x: x, vars: map[string]*Val{}, cur: st, old: st, pkg: e.pkgByPath(um.Pkg)}
+		var rec func(i int, b map[string]*Val)
+		rec = func(i int, b map[string]*Val) {
+			if i == len(um.E.Vars) {
+				ue.bound = b
+				x.noName++
+				x.specMode++
+				t := x.ev(um.E.Args[0], ue).T
+				x.noName--
+				x.specMode--
+				x.emit("(assert " + t + ")")
+				return
+			}
+			for _, c := range cands {
+				nb := map[string]*Val{}
+				for k, v := range b {
+					nb[k] = v
+				}
+				nb[um.E.Vars[i].Name] = &Val{K: KScalar, T: c, S: "Int", GT: types.Typ[types.UntypedInt]}
+				rec(i+1, nb)
+			}
+		}
+		rec(0, map[string]*Val{})
+	}
+	o := x.addObl("lemma", lm.Name, fmt.Sprintf("%s:%d", filepath.Base(lm.File), lm.Line), "true", goal)
+	if o != nil {
+		o.Note = lm.Src
+	}
+	return fres
 }
 
 // ---- discharge ------------------------------------------------------------------
